@@ -1,4 +1,5 @@
-Require Import Model.Base Corr.Common Corr.Draw.
+Require Import Model.Base Corr.Common Corr.Draw Corr.L2 Corr.DrawL.
 Definition oracle (v : verdict) : bool := v_results_ok v && v_no_anomaly v && v_confined v && v_writes v && v_framing v.
-Definition check (x : pcase * pout) : Z := code (corr_exact (fst x) (snd x)) (oracle (verdict_of x)).
-Definition model_out := Corr.Draw.model_out.
+Definition oracle2 (v : verdict) : bool := v_results_ok v && v_no_anomaly v && v_confined v && v_picture v && v_framing v.
+Definition check := check_with oracle oracle2.
+Definition model_out := Corr.DrawL.model_out.
